@@ -57,7 +57,7 @@ func main() {
 	}
 	schedules, events := 400, 3000
 	if o.Thorough() {
-		schedules, events = 40000, 8000
+		schedules, events = 500000, 8000
 	}
 	if v, err := strconv.Atoi(os.Getenv("C15_SCHEDULES")); err == nil && v > 0 {
 		schedules = v
